@@ -87,6 +87,17 @@ def run_c11_tables(v, tier, seed, rng):
     for w in walks:
         sc = g.scenario(w, "")
         cases.append({"kind": "pex", "steps": sc["steps"]})
+    # the 50-entries-per-message split: three abstract addresses of 25 peers each, Cap = 2 addresses per message
+    r = run_tlc("MCPex", "Pex_edges_cap.cfg", workers=1, timeout=900)
+    require_ok(r, "Pex edge dump (Cap)")
+    gc = Graph.from_result(r, lambda s: not (s["pending"] or s["pendingDel"] or s["sent"] or s["told"] or s["present"]))
+    os.unlink(r.outfile)
+    walks2, unc2 = gc.covering_walks(rng, maxlen=24)
+    if unc2 or not gc.inits:
+        raise Internal("Pex edge dump (Cap): %d edges unreachable" % unc2)
+    for w in walks2:
+        sc = gc.scenario(w, "")
+        cases.append({"kind": "pex", "steps": sc["steps"], "mult": 25})
     for i, c in enumerate(cases):
         c["id"] = i
     vh = vlib.build_harness()
